@@ -662,7 +662,7 @@ def _invoke(fn, args, kw, limit, findings, where, type_only):
             # running out of stack and running out of step budget are the same outcome: the call did not finish
             # (the worlds differ in stack depth per call level because of the monitor's wrapper frames)
             return ('div',)
-        if worlds.link_witness(e) or worlds.object_attr_witness(e, args, kw):
+        if worlds.link_witness(e) or worlds.object_attr_witness(e, args, kw, _pkg_attr(fn)):
             site = worlds.innermost_package_frame(e)
             if site is not None:
                 findings.append({'oracle': 'D', 'key': _link_key(site, e), 'alt_keys': [_link_key(s_, e) for s_ in _package_frames(e)],
